@@ -410,6 +410,62 @@ pub fn main(tier: Tier, replay: Option<String>) -> i32 {
     if rep.has_violation() {
         return rep.finish();
     }
+    // ---------------- CLI with a dictionary of many parts of speech (real dictionaries have more
+    // than a thousand; ids that agree modulo 256 must not be confused in the POS column)
+    {
+        let mut mp_fail: Vec<(Value, Failure)> = Vec::new();
+        let mut mp_cases = 0u64;
+        let mut spec = spec_min("W-io-many-pos");
+        let mut lines = String::new();
+        let kana: Vec<char> = "かきくけこさしすせそたちつてとなにぬねのはひふへほまみむめも".chars().collect();
+        for i in 0..600usize {
+            let w: String = [kana[i % 30], kana[(i / 30) % 30], 'ン'].iter().collect();
+            let tag = format!("分類{}", i);
+            let mut r = Row::new(&w, 1, 1, -20000, P_NOUN);
+            r.pos = [tag, "細分".to_string(), "*".to_string(), "*".to_string(), "*".to_string(), "*".to_string()];
+            spec.system.push(r);
+            lines.push_str(&w);
+            lines.push('\n');
+        }
+        match World::build(spec).map(Arc::new).map_err(|e| e.to_string()).and_then(|w| write_disk_world(&w).map(|p| (w, p))) {
+            Err(e) => {
+                eprintln!("machinery failure: many-POS world: {}", e);
+                return 2;
+            }
+            Ok((w, (cfgp, resp))) => {
+                let input_path = work_dir().join("cli_input_many_pos.txt");
+                std::fs::write(&input_path, &lines).expect("write input");
+                for f in flags.iter().filter(|f| f.route == 0 && (f.name == "default" || f.name == "-a" || f.name == "-w")) {
+                    mp_cases += 1;
+                    let expected = match cli_reference(&w.dict, &lines, f) {
+                        Ok(s) => s,
+                        Err(e) => {
+                            eprintln!("machinery failure: reference failed: {}", e);
+                            return 2;
+                        }
+                    };
+                    match Command::new(&cli).arg("-r").arg(&cfgp).arg("-p").arg(&resp).args(&f.args).arg(&input_path).output() {
+                        Err(e) => {
+                            eprintln!("machinery failure: cannot run {}: {}", cli.display(), e);
+                            return 2;
+                        }
+                        Ok(o) => {
+                            let got = String::from_utf8_lossy(&o.stdout).to_string();
+                            if !o.status.success() {
+                                mp_fail.push((json!({"file": "600 one-word lines, 600 parts of speech", "flags": f.name}), Failure::new("cli-crashed", format!("sudachi {} on the 600-POS file exited with {:?}", f.name, o.status.code()))));
+                            } else if got != expected {
+                                let (gl, el): (Vec<&str>, Vec<&str>) = (got.lines().collect(), expected.lines().collect());
+                                let k = gl.iter().zip(el.iter()).position(|(a, b)| a != b).unwrap_or(gl.len().min(el.len()));
+                                mp_fail.push((json!({"file": "600 one-word lines, 600 parts of speech", "flags": f.name}), Failure::new("cli-output-differs", format!("sudachi {} on 600 one-word lines over a dictionary with 600 parts of speech: line {} is {:?}, the library gives {:?}", f.name, k, gl.get(k), el.get(k)))));
+                            }
+                        }
+                    }
+                }
+            }
+        }
+        let first: Vec<(Value, Failure)> = mp_fail.into_iter().take(1).collect();
+        rep.add_direct("cli/dictionary-with-600-parts-of-speech", mp_cases.max(1), mp_cases.max(1), mp_cases.max(1), vec![], first, json!({"words": 600, "parts_of_speech": 600, "flag_sets": ["default", "-a", "-w"]}));
+    }
     // ---------------- Python
     let pyroot = match assemble_python(&so) {
         Ok(p) => p,
